@@ -987,6 +987,19 @@ fn delete_crash_case(idx: Idx, k: Option<u64>, dirty: bool) -> Option<DeleteCras
     let (live, model) = setup(idx, dirty);
     let db = live.fx.db.clone();
     let next_id = live.fx.coll.max_document_id() + 1;
+    // a sibling collection whose name extends the deleted one's (docs / docs2): whatever
+    // happens to `docs`, not one object of `docs2` may change
+    let sibling_doc = fixture::vdoc("sib", 33, None, &["s"], "sibling text");
+    let sibling = util::block_on(async {
+        let c = fixture::open_sibling(&db).await.expect("sibling collection");
+        c.add_from(&sibling_doc).await.expect("sibling add");
+        c.flush(anda_db::unix_ms()).await.expect("sibling flush");
+        c
+    });
+    let sibling_prefix = format!("vdb/{}/", fixture::SIBLING_NAME);
+    let sibling_objects = |content: &Content| -> Content { content.iter().filter(|(p, _)| p.starts_with(&sibling_prefix)).map(|(p, v)| (p.clone(), v.clone())).collect() };
+    let sibling_before = sibling_objects(&ctlstore::snapshot(live.cs.inner()));
+    assert!(sibling_before.len() >= 4, "sibling collection wrote nothing");
     let base = live.ctl.mutation_attempts();
     if let Some(k) = k {
         live.ctl.crash_after_mutations(base + k);
@@ -1006,6 +1019,19 @@ fn delete_crash_case(idx: Idx, k: Option<u64>, dirty: bool) -> Option<DeleteCras
         problems.push(("delete-crash|fault-free-delete-failed".into(), format!("delete_collection failed without a fault: {e:?}")));
     }
     let content = ctlstore::snapshot(live.cs.inner());
+    if sibling_objects(&content) != sibling_before {
+        let now = sibling_objects(&content);
+        let lost: Vec<&String> = sibling_before.keys().filter(|p| !now.contains_key(*p)).collect();
+        problems.push(("delete-crash|sibling-collection-touched".into(), format!("delete_collection({COLL_NAME:?}) changed objects of the collection {:?}: missing {lost:?}", fixture::SIBLING_NAME)));
+    }
+    if k.is_none() {
+        // the live sibling handle still works and still holds its document
+        match util::block_on(sibling.get_as::<VDoc>(1)) {
+            Ok(d) if d.name == "sib" => {}
+            other => problems.push(("delete-crash|sibling-collection-touched".into(), format!("after delete_collection({COLL_NAME:?}) the sibling collection's document reads {other:?}"))),
+        }
+    }
+    drop(sibling);
     drop(live);
     // fresh process
     anda_db_utils::verif::set_clock(Some((1_800_000_000_000, 1)));
@@ -1022,6 +1048,13 @@ fn delete_crash_case(idx: Idx, k: Option<u64>, dirty: bool) -> Option<DeleteCras
             return Some(DeleteCrashResult { problems, listed_after: false, residue: 0 });
         }
     };
+    match util::block_on(fixture::open_sibling(&db2)) {
+        Ok(c) => match util::block_on(c.get_as::<VDoc>(1)) {
+            Ok(d) if d.name == "sib" && c.len() == 1 => {}
+            other => problems.push(("delete-crash|sibling-collection-touched".into(), format!("{label}: fresh process, the sibling collection {:?} reads {other:?} (len {})", fixture::SIBLING_NAME, c.len()))),
+        },
+        Err(e) => problems.push(("delete-crash|sibling-collection-touched".into(), format!("{label}: fresh process, the sibling collection {:?} does not reopen: {e:?}", fixture::SIBLING_NAME))),
+    }
     let listed = db2.metadata().collections.contains(COLL_NAME);
     let under_prefix = |cs: &Arc<vcore::ctlstore::CtlStore>| -> Vec<String> { ctlstore::snapshot(cs.inner()).into_keys().filter(|p| p.starts_with(PREFIX)).collect() };
     let residue = under_prefix(&cs).len();
